@@ -177,7 +177,7 @@ class Ctx:
 
     # ---------------------------------------------------------------- TLC
     def tlc(self, module, cfg, *, workers=None, simulate=None, depth=None, coverage=False,
-            timeout=600, files=None, defines=None, name=None, count=True, dfs=False, heap='8g',
+            timeout=600, files=None, defines=None, name=None, count=True, dfs=False, heap='4g',
             keep_stdout=True, cfg_text=None, seed=None):
         """Run TLC on spec/<module>.tla with spec/<cfg> in a scratch copy.
         files: {relname: path-or-text-bytes} extra files placed in the run dir (traces).
